@@ -22,15 +22,52 @@ def explore(cfg, workers=1, timeout=3600, heap="8g", simulate=None, depth=None, 
     return res, g, init
 
 
+def _features(steps):
+    """abstract features of a behaviour used to prioritise the sample of the transition cover: action names, ordered
+    pairs of actions at distance <= 3, with the relation between their target slots (same slot / parent-child / copy)."""
+    feats = set()
+    labs = [lab for lab, _ in steps]
+    for j, b in enumerate(labs):
+        feats.add((b["act"], b["out"]))
+        for i in range(max(0, j - 3), j):
+            a = labs[i]
+            sa, sb = a["args"].get("s"), b["args"].get("s")
+            rel = "same" if sa is not None and sa == sb else "other"
+            amap = a["args"].get("map")
+            if amap and sb is not None:
+                vals = list(amap.values()) if isinstance(amap, dict) else list(amap)
+                keys = list(amap.keys()) if isinstance(amap, dict) else []
+                if sb in vals:
+                    rel = "on-copy"
+                elif str(sb) in keys:
+                    rel = "on-source"
+            feats.add((a["act"], b["act"], rel))
+    return feats
+
+
 def make_items(g, init, prop, seed, max_paths=None, max_len=30, variants=1):
     rng = random.Random(seed)
     paths, covered, unreachable = graph.path_cover(g.states, g.edges, init, max_len=max_len)
     if max_paths is not None and len(paths) > max_paths:
+        # budgeted sample: first a greedy set cover of the behaviours' abstract features (so that rare combinations such
+        # as "edit the copy after a copy" are always replayed), then a seeded random fill
         rng.shuffle(paths)
-        paths = paths[:max_paths]
+        feats = [_features([(g.edges[j][2], None) for j in p]) for p in paths]
+        chosen, seen = [], set()
+        order = sorted(range(len(paths)), key=lambda i: -len(feats[i]))
+        for i in order:
+            if len(chosen) >= max_paths * 2 // 3:
+                break
+            if feats[i] - seen:
+                chosen.append(i)
+                seen |= feats[i]
+        rest = [i for i in range(len(paths)) if i not in set(chosen)]
+        chosen += rest[:max_paths - len(chosen)]
+        paths = [paths[i] for i in chosen]
     items = []
     for i, p in enumerate(paths):
         steps = [(g.edges[j][2], g.states[g.edges[j][1]]) for j in p]
+        # class / call-style variant: both parities are used for every behaviour index pattern
         items.append({"id": i, "variant": (seed + i) % 48,
                       "init": g.states[g.edges[p[0]][0]], "steps": steps, "prop": prop})
     n_edges = len({j for p in paths for j in p})
